@@ -16,6 +16,8 @@ import Verif.Model.Common
         `sshDefaultDuration.Modify` / `sshLimitDuration.Modify` fail for an unknown type -> `durationOK`
     * authority/provisioner/jwk.go, x5c.go `AuthorizeSSHSign`   -> `authorizeSign` (.jwk / .x5c)
       authority/provisioner/oidc.go `AuthorizeSSHSign`          -> `authorizeSign` (.oidc admin)
+      authority/provisioner/nebula.go `AuthorizeSSHSign`, `nebulaPrincipalsValidator.Valid`
+                                                                 -> `authorizeSign` (.nebula), `nebPrincipalsValid`
     * go.step.sm/crypto/sshutil `DefaultTemplate` ("type, key id, principals := data"),
       `DefaultAdminTemplate` (":= request")                     -> `applyTemplate`
     * authority/ssh.go `signSSH` (ordering: Validate, option validators in list order, template,
@@ -81,13 +83,27 @@ structure Token where
 inductive Prov where
   | jwk | x5c
   | oidc (admin : Bool)
+  | nebula
   deriving Repr, DecidableEq
 
-/-- OIDC only: e-mail claim and the user names the identity function derives from it -/
+/-- provisioner-specific credential data besides the token claims.
+    OIDC: e-mail claim and the user names the identity function derives from it.
+    Nebula: name and addresses (canonical text) of the Nebula certificate in the token header, and
+    for every principal of the token's `step.ssh` options `net.ParseIP(p)` as canonical text
+    (`none` when it does not parse) -/
 structure Oidc where
   email : Str
   usernames : List Str
+  nebName : Str
+  nebIPs : List Str
+  prinIP : List (Option Str)
   deriving Repr, DecidableEq
+
+/-- `nebulaPrincipalsValidator.Valid`: every principal is the certificate's name or parses as one
+    of its addresses -/
+def nebPrincipalsValid (o : Oidc) (principals : List Str) : Bool :=
+  (principals.zip o.prinIP).all fun (p, ip) =>
+    p = o.nebName || (match ip with | some a => o.nebIPs.contains a | none => false)
 
 /-- template data: certificate type as the string the template prints (`CertType.String()`) -/
 structure Data where
@@ -134,6 +150,17 @@ def authorizeClaims (prov : Prov) (t : Token) (o : Oidc) : Auth :=
     let data : Data := if o.email = [] then ⟨.user, t.sub, []⟩ else ⟨.user, o.email, o.usernames⟩
     .ok { checks := [if admin then .require else .matches ⟨sUser, [], []⟩]
           data := data, tpl := if admin then .admin else .default }
+  | .nebula =>
+    -- host certificates only; default principals = name and addresses of the Nebula certificate
+    match t.ssh with
+    | none => .ok { checks := [], data := ⟨.host, t.sub, o.nebName :: o.nebIPs⟩, tpl := .default }
+    | some opts =>
+      if nebPrincipalsValid o opts.principals = false then .unauthorized
+      else if opts.certType ≠ [] ∧ opts.certType ≠ sHost then .unauthorized
+      else .ok { checks := [.matches ⟨sHost, t.sub, []⟩, .matches opts]
+                 data := ⟨.host, if opts.keyID = [] then t.sub else opts.keyID,
+                          if opts.principals.length > 0 then opts.principals else o.nebName :: o.nebIPs⟩
+                 tpl := .default }
 
 /-- `authorizeToken` (JWK, X5C) and `OIDC.AuthorizeSSHSign` refuse an empty subject first -/
 def authorizeSign (prov : Prov) (t : Token) (o : Oidc) : Auth :=
@@ -168,6 +195,9 @@ structure CAKeys where
   user : Bool
   host : Bool
   storeRejectsEmpty : Bool
+  /-- `sshCertDefaultValidator` refuses a certificate whose principals contain `""` (the repaired
+      code; `false` = the code as first analysed, where only the *request's* principals were checked) -/
+  emptyPrincipalCheck : Bool
   deriving Repr, DecidableEq
 
 /-- `storeSSHCertificate` / `storeRenewedSSHCertificate` succeed -/
@@ -218,6 +248,7 @@ def signSSH (ca : CAKeys) (p : Plan) (req : Opts) (key : KeyClass) : Res :=
         | some st => .refused st
         | none =>
           if c.keyID = [] then .refused 403
+          else if ca.emptyPrincipalCheck && c.principals.any (· = []) then .refused 403
           else if storeOK ca c.principals = false then .refused 500
           else .issued c sg
 
@@ -231,12 +262,19 @@ def sshSign (ca : CAKeys) (prov : Prov) (t : Token) (o : Oidc) (req : Opts) (key
 
 /-! ### SSH-POP: renew, rekey, revoke -/
 
+/-- `ssh.Permissions`: critical options and extensions as key/value lists (sorted by key by the
+    harness; a nil map and an empty map are the same list) -/
+structure Perms where
+  crit : List (Str × Str)
+  exts : List (Str × Str)
+  deriving Repr, DecidableEq
+
 /-- the certificate in the `sshpop` header -/
 structure PopCert where
   ct : Nat                 -- 1 user, 2 host, other values possible
   keyID : Str
   principals : List Str
-  perms : Nat              -- critical options and extensions, opaque
+  perms : Perms            -- critical options and extensions
   sigUser : Bool           -- signature verifies under a configured user CA key
   sigHost : Bool           -- … under a configured host CA key
   notYet : Bool            -- validAfter in the future
@@ -283,7 +321,7 @@ def popAuthorize (cfg : PopCfg) (op : PopOp) (c : PopCert) (t : PopTok) : Bool :
 
 inductive PopRes where
   | refused
-  | issued (c : Cert) (perms : Nat) (by_ : Signer)
+  | issued (c : Cert) (perms : Perms) (by_ : Signer)
   deriving Repr, DecidableEq
 
 /-- `renewSSH` / `rekeySSH` after authorization: validity present, revocation gate, field copy,
@@ -294,7 +332,8 @@ def popIssue (cfg : PopCfg) (c : PopCert) (revoked : Bool) (key : KeyClass) (isR
   match selectSigner cfg.ca c.ct (if isRekey then 400 else 500) with
   | .inl _ => .refused
   | .inr sg =>
-    if isRekey && ((keyStatus key).isSome || c.keyID = []) then .refused
+    if isRekey && ((keyStatus key).isSome || c.keyID = [] ||
+        (cfg.ca.emptyPrincipalCheck && c.principals.any (· = []))) then .refused
     else if storeOK cfg.ca c.principals = false then .refused
     else .issued ⟨c.ct, c.keyID, c.principals⟩ c.perms sg
 
